@@ -269,4 +269,51 @@ theorem includePairOfWorkloads_eq (focus : String) (s d : Engine.LPeer) :
     cases h1 : (s.isIP && d.isIP) <;> cases h2 : (s.str == d.str) <;> simp [h1, h2, pure, Except.pure, Engine.isFocus]
   · cases h1 : (s.isIP && d.isIP) <;> cases h2 : (s.str == d.str) <;> simp [h1, h2, hf, pure, Except.pure]
 
+-- ------------------------------------------------------------------------------------------
+-- loops: a Go `for … range` whose body only updates variables of the enclosing scope is the monadic left fold of its body
+
+/-- `getAllAllowedXgressConnectionsFromANPs`: the fold over the admin policies in priority order -/
+theorem getAllAllowedXgressConnectionsFromANPs_eq (e : Engine) (src dst : KPeer) (isIngress : Bool) :
+    e.anpConns src dst isIngress = Gen.Procs.getAllAllowedXgressConnectionsFromANPs e.anps src dst isIngress := by
+  unfold Engine.anpConns Gen.Procs.getAllAllowedXgressConnectionsFromANPs
+  congr 1
+  · congr 1
+    funext pc a
+    cases isIngress
+    · cases hs : a.selects src false
+      · simp [hs, bind, Except.bind, pure, Except.pure, PolicyConns.isEmpty, PolicyConns.empty, ConnSet.isEmpty, ConnSet.mk', ConnSet.noProtos]
+      · cases hc : adminPolicyConns a.egress dst dst false with
+        | error err => simp [hs, hc, bind, Except.bind, pure, Except.pure]
+        | ok r => cases hr : r.isEmpty <;> simp [hs, hc, hr, bind, Except.bind, pure, Except.pure, Gen.Procs.collectANPConns, PolicyConns.collectANP]
+    · cases hs : a.selects dst true
+      · simp [hs, bind, Except.bind, pure, Except.pure, PolicyConns.isEmpty, PolicyConns.empty, ConnSet.isEmpty, ConnSet.mk', ConnSet.noProtos]
+      · cases hc : adminPolicyConns a.ingress src dst false with
+        | error err => simp [hs, hc, bind, Except.bind, pure, Except.pure]
+        | ok r => cases hr : r.isEmpty <;> simp [hs, hc, hr, bind, Except.bind, pure, Except.pure, Gen.Procs.collectANPConns, PolicyConns.collectANP]
+
+/-- `getAllAllowedXgressConnsFromNetpols`: no policy selects the pod = not captured; otherwise the union over the selecting
+policies in the order of their names (the exposure bookkeeping of the loop body is modelled in `Model/Exposure.lean`) -/
+theorem getAllAllowedXgressConnsFromNetpols_eq (e : Engine) (src dst : KPeer) (isIngress : Bool) :
+    npLift (e.netpolConns src dst isIngress) =
+      Gen.Procs.getAllAllowedXgressConnsFromNetpols (.ok (e.policiesSelecting dst .ingress)) (.ok (e.policiesSelecting src .egress))
+        src dst isIngress := by
+  unfold Engine.netpolConns Gen.Procs.getAllAllowedXgressConnsFromNetpols npLift
+  cases isIngress
+  · cases hp : e.policiesSelecting src .egress with
+    | nil => simp [hp, bind, Except.bind, pure, Except.pure, Except.map]
+    | cons p ps =>
+      simp only [hp, ↓reduceIte, List.isEmpty_cons, Bool.false_eq_true, if_false, if_true, bind, Except.bind, pure, Except.pure, Except.map, List.length_cons]
+      have hl : (ps.length + 1 == 0) = false := by simp
+      simp only [hl]
+      try simp only [Bool.false_eq_true, if_false]
+      generalize @List.foldlM (Except Err) _ ConnSet NetPol _ (ConnSet.mk' false) (p :: ps) = r
+      cases r <;> rfl
+  · cases hp : e.policiesSelecting dst .ingress with
+    | nil => simp [hp, bind, Except.bind, pure, Except.pure, Except.map]
+    | cons p ps =>
+      simp only [hp, ↓reduceIte, List.isEmpty_cons, Bool.false_eq_true, if_false, if_true, bind, Except.bind, pure, Except.pure, Except.map, List.length_cons]
+      try simp only [Bool.false_eq_true, if_false]
+      generalize @List.foldlM (Except Err) _ ConnSet NetPol _ (ConnSet.mk' false) (p :: ps) = r
+      cases r <;> rfl
+
 end Netpol.Tie.Procs
